@@ -20,7 +20,7 @@ PROPS = {
             'that handles can still be dropped after the panic (drop glue / unwinding is outside both verifiers)',
         ]),
     'C14': dict(
-        units=['expert', 'nodepred', 'edges'], level='proof',
+        units=['expert', 'nodepred', 'edges', 'steps'], level='proof',
         replays=['c14_invalid_dep_removed.rs', 'c14_callback_on_new_dependency.rs', 'c14_callback_on_valueless_child.rs'],
         uncovered=[
             'state_add_parent and the callers of remove_parent in node.rs (multi-node; opaque callees with call-site obligations); expert_swap_children_except_in_kind is under contract in unit `edges` (C11)',
@@ -29,7 +29,7 @@ PROPS = {
             'equality of the node value with the reference combinator (C01-level)',
         ]),
     'C10': dict(
-        units=['observer'], level='proof',
+        units=['observer', 'steps'], level='proof',
         replays=[],
         uncovered=[
             'the two linking loops add_new_observers / unlink_disallowed_observers beyond the frame obligations',
@@ -37,7 +37,7 @@ PROPS = {
             'that Observer::clone clones the sentinel (derive(Clone)): trusted',
         ]),
     'C09': dict(
-        units=['handlers', 'observer', 'nodepred'], level='proof',
+        units=['handlers', 'observer', 'nodepred', 'steps'], level='proof',
         replays=['c09_spurious_changed.rs', 'c09_double_unsubscribe.rs', 'c09_state_unsubscribe_before_first_stabilise.rs'],
         uncovered=[
             'that a due callback is actually invoked (liveness); the contracts pin the argument of every call that is made, and the handler state after it',
@@ -45,28 +45,28 @@ PROPS = {
             'that maybe_change_value sets changed_at exactly when the cutoff does not suppress the new value (see C06)',
         ]),
     'C08': dict(
-        units=['var'], level='proof',
+        units=['var', 'steps'], level='proof',
         replays=[],
         uncovered=[
             'that every reader in the running stabilise goes through Var::compute, and that the next stabilise propagates the value (C01-level)',
             'RefCell borrow panics (erased by R5)',
         ]),
     'C11': dict(
-        units=['observer', 'edges', 'nodepred', 'heightwalk', 'heaps'], level='other',
+        units=['observer', 'edges', 'nodepred', 'heightwalk', 'heaps', 'steps'], level='other',
         replays=['c11_handler_count.incrate.rs'],
         uncovered=[
             'only two clauses are under contract: the per-node handler count, and the per-call effect of add_parent / remove_parent / expert_swap_children_except_in_kind on the index arrays of the nodes involved (an edge is recorded, removed or re-slotted symmetrically on both ends); that these calls are made for the right nodes, heights, recompute-heap membership and stats().necessary are relations across the graph and are not under contract (pinned only by a few statement-order frames)',
             'duplicate parents / duplicate children share one RefCell in the real code; the per-node `&mut` parameters of rule R5p assume distinct nodes',
         ]),
     'C07': dict(
-        units=['observer', 'var', 'heaps'], level='other',
+        units=['observer', 'var', 'heaps', 'steps'], level='other',
         replays=[],
         uncovered=[
             '"all observers reflect one assignment of variable values" (C01-level)',
             'that value_opt writers are reachable only from stabilise or expert invalidate: written argument, not machine-checked',
         ]),
     'C13': dict(
-        units=['heaps', 'observer', 'var', 'edges'], level='other',
+        units=['heaps', 'observer', 'var', 'edges', 'steps'], level='other',
         replays=[],
         uncovered=[
             '"dropping every handle and the state completes without a second panic": unwinding / Drop order is outside both verifiers',
@@ -80,7 +80,7 @@ PROPS = {
             'the MapRef did_change flag over time (a known history-dependent defect is recorded in DESIGN.md section 5 as not decidable here)',
         ]),
     'C05': dict(
-        units=['nodepred', 'observer', 'var', 'heightwalk'], level='other',
+        units=['nodepred', 'observer', 'var', 'heightwalk', 'steps'], level='other',
         replays=[],
         uncovered=[
             'the became_unnecessary cascade and the cone statement itself',
@@ -101,6 +101,7 @@ LEMMA_PROPS = {
     'var': {'*': ['C08']},
     'edges': {'*': ['C11']},
     'nodepred': {'*': ['C06', 'C05']},   # (no lemmas yet)
+    'steps': {'*': ['C10']},   # (no lemmas)
 }
 
 NOT_APPLICABLE = {
